@@ -43,7 +43,9 @@ def _cases(tier):
                         else:
                             combos = list(itertools.product((1, 2, 3), (2, 3, 10, 40)))
                         for sweeps, it in combos:
-                            yield [name, L, qD, algo, sweeps, it, prof]
+                            yield [name, L, qD, algo, sweeps, it, prof, 'complex']
+                        if ':' not in algo:
+                            yield [name, L, qD, algo, 2, 3, prof, 'real']
 
 
 def run_dmrg(algo, H, psi, sweeps, it):
@@ -54,10 +56,12 @@ def run_dmrg(algo, H, psi, sweeps, it):
 
 
 def run_case(case, ctx):
-    name, L, qD, algo, sweeps, it, prof = case
+    name, L, qD, algo, sweeps, it, prof = case[:7]
+    skind = case[7] if len(case) > 7 else 'complex'
     H = ec.build_hamiltonian(name, L, ctx.rng(5))
     qd = [int(x) for x in H.qd]
-    psi = ec.make_state(ctx.rng(0), qd, qD)
+    psi = ec.make_state(ctx.rng(0), qd, qD, skind)
+    ctx.cls('state_dtype:' + skind)
     v0 = dense.mps_to_vector(psi.A)
     n0 = np.linalg.norm(v0)
     if n0 < 1e-12:
